@@ -357,6 +357,40 @@ func runC14(c *Ctx, r *Report) {
 		r.Floor("C14.R5", 1)
 	}
 
+	// R6: a state file is written from an empty file
+	r.Rule("C14.R6", "state files are written from scratch: every os.OpenFile in the module that opens for writing with O_CREATE also has O_TRUNC, O_EXCL or O_APPEND in its (constant) flags; os.Create and os.CreateTemp truncate by definition")
+	{
+		const oWRONLY, oRDWR, oAPPEND, oCREATE, oEXCL, oTRUNC = 0x1, 0x2, 0x400, 0x40, 0x80, 0x200
+		n6 := 0
+		for _, fn := range c.ModuleSSAFuncs() {
+			eachInstr(fn, func(in ssa.Instruction) {
+				call, ok := in.(*ssa.Call)
+				if !ok {
+					return
+				}
+				switch stdName(call) {
+				case "os.Create", "os.CreateTemp":
+					n6++
+					r.Ok("C14.R6", ssaFuncName(fn), stdName(call)+" starts from an empty file", c.Pos(call.Pos()))
+				case "os.OpenFile":
+					n6++
+					flags, isK := constInt(call.Common().Args[1])
+					if !isK {
+						r.Fail("C14.R6", ssaFuncName(fn), "os.OpenFile flags", c.Pos(call.Pos()), "the open flags are not a constant: cannot tell whether an existing file is truncated")
+						return
+					}
+					writes := flags&oWRONLY != 0 || flags&oRDWR != 0
+					okT := !writes || flags&oCREATE == 0 || flags&(oTRUNC|oEXCL|oAPPEND) != 0
+					r.Check(okT, "C14.R6", ssaFuncName(fn), "os.OpenFile for writing truncates", c.Pos(call.Pos()),
+						"the file is opened for writing with O_CREATE but without O_TRUNC: a shorter state written over a longer one leaves the tail of the old state in the file, which loads as stale (or unparsable) bindings")
+				}
+			})
+		}
+		if n6 < 2 {
+			r.Undecided("C14.R6: only %d file creations found (save() and AutoSave expected)", n6)
+		}
+	}
+
 	// shared C13.R8: load() and auto-load evaluate through EvalString, which always rewrites the program with
 	// ast.Modify (macro expansion): an attribute the rewrite drops is gone from the next save
 	if !r.Sub {
